@@ -191,6 +191,33 @@ def gen_op(rnd, p, prof, last_build=None):
             out.append(('rm', d))
         out += [b, ('sel', n, list(deps)), b]
         return out
+    if op == 'm_dropforgot':
+        # like m_dropdep, but the narrowed target is rebuilt while redo's record of it says "not a target (any more)": its file
+        # was removed and a consumer's walk reached it first, a build attempt failed with the output missing, or it had been an
+        # override that the user deleted again.  The edges of the earlier incarnation must still be replaced by the new ones.
+        c = [n for n in tnames if p.targets[n].get('dyn') and len(p.targets[n]['deps']) >= 2 and p.dependents(n)
+             and not p.targets[n].get('phony') and not p.targets[n].get('stamp')]
+        if not c:
+            return None
+        n = rnd.choice(c)
+        top = rnd.choice(sorted(p.dependents(n)))
+        deps = p.targets[n]['deps']
+        keep = rnd.sample(deps, rnd.randint(1, len(deps) - 1))
+        d = rnd.choice([x for x in deps if x not in keep])
+        if d not in p.sources and p.targets[d].get('stamp'):
+            return None
+        bt = ('build', [top], dict(j=1, keep=False, forced=False))
+        routes = ['rm', 'override'] + (['fail'] if p.targets[n].get('flag') == 0 else [])
+        route = rnd.choice(routes)
+        if route == 'rm':
+            out = [bt, ('rm', n), ('sel', n, keep), bt]
+        elif route == 'override':
+            out = [bt, ('uwrite', n, 'inplace'), bt, ('urm', n), ('sel', n, keep), bt]
+        else:
+            out = [bt, ('rm', n), ('flag', n, 1), bt, ('flag', n, 0), ('sel', n, keep), bt]
+        out.append((rnd.choice(['edit_r', 'edit_i', 'touch']), d) if d in p.sources else ('rm', d))
+        out += [bt, bt, ('sel', n, list(deps)), bt]
+        return out
     if op == 'm_doswap':
         # add a higher-priority rule, build, remove it again, build
         c = addable_dos(p)
